@@ -229,6 +229,71 @@ def findEagerBranch (tpl : UTpl) : Option (List String × Nat) :=
     | some os => os.any Occ.eager
     | none => true)
 
+/-! ### which members the alias lists -/
+
+/-- what is known of `k < fields|length`: `some b` = it is `b` -/
+abbrev LenKnow := Nat → Option Bool
+
+/-- two or more members -/
+def know2 : LenKnow := fun k => if k < 2 then some true else none
+
+/-- exactly one member -/
+def know1 : LenKnow := fun k => some (decide (k < 1))
+
+/-- a condition under partial knowledge of the member count (template variables unknown) -/
+def condA (a : LenKnow) : UCond → Option Bool
+  | .tt => some true
+  | .lenGt k => a k
+  | .var _ => none
+  | .not c => (condA a c).map (fun b => !b)
+  | .and x y =>
+    match condA a x, condA a y with
+    | some false, _ => some false
+    | _, some false => some false
+    | some true, some true => some true
+    | _, _ => none
+  | .or x y =>
+    match condA a x, condA a y with
+    | some true, _ => some true
+    | _, some true => some true
+    | some false, some false => some false
+    | _, _ => none
+  | .unknown _ => none
+
+/-- the sites that end up in the alias statement: not the alias target, not in a comment -/
+def liveSite : USite → Lex → List USite
+  | _, .comment => []
+  | .className, _ => []
+  | s, _ => [s]
+
+/-- the sequence of live sites of the rendered alias when it is THE SAME on every path the knowledge
+allows (`none`: paths differ) -/
+def shapeA (a : LenKnow) : UTpl → Option (List USite)
+  | .done => some []
+  | .site s l rest => (shapeA a rest).map (fun r => liveSite s l ++ r)
+  | .ite c t e rest =>
+    match shapeA a rest with
+    | none => none
+    | some r =>
+      match condA a c with
+      | some true => (shapeA a t).map (fun x => x ++ r)
+      | some false => (shapeA a e).map (fun x => x ++ r)
+      | none =>
+        match shapeA a t, shapeA a e with
+        | some x, some y => if x = y then some (x ++ r) else none
+        | _, _ => none
+
+/-- an occurrence without its lexical state: the member it names, or `none` for another expression -/
+def Occ.forget : Occ → Option Name
+  | .member n _ => some n
+  | .other _ _ => none
+
+def siteForget (members : List Name) : USite → List (Option Name)
+  | .className => []
+  | .firstMember => [members.head?]
+  | .eachMember => members.map some
+  | .other _ => [none]
+
 /-! ### emission order -/
 
 inductive Kind where
@@ -309,7 +374,7 @@ def sortLoop : Nat → List Name → List Node → List Name × Bool
 
 /-- order of the top-level definitions of the generated module -/
 def emit (order : List Kind) (defs : List Def) : List Name × Bool :=
-  sortLoop defs.length [] (nodes order defs)
+  sortLoop (nodes order defs).length [] (nodes order defs)
 
 def emitOrder (order : List Kind) (defs : List Def) : List Name := (emit order defs).1
 
